@@ -28,6 +28,7 @@ package main
 
 import (
 	"bytes"
+	"fmt"
 	"hash/crc32"
 	"hash/fnv"
 	"math/rand"
@@ -374,12 +375,19 @@ func shapeOnce(hf *harfbuzz.Font, text []rune, dir harfbuzz.Direction, feats []h
 	// |text|) glyphs, a few MB which do not depend on the font size. Beyond maxShapeAlloc it is a failure.
 	d := allocated() - a0
 	shapeAlloc += d
-	if d > maxShapeAlloc {
+	if shapeDebug {
+		fmt.Fprintf(os.Stderr, "shape %q dir=%d feats=%d glyphs=%d alloc=%d\n", string(text), dir, len(feats), len(buf.Info), d)
+	}
+	// ... plus what the font functions allocate per output glyph (advances and extents of a variable
+	// font: about 5 KB per glyph), the number of output glyphs being bounded by maxLen
+	if d > maxShapeAlloc+8192*uint64(len(buf.Info)) {
 		panic(shapeAllocExceeded{d, len(text)})
 	}
 }
 
 const maxShapeAlloc = 48 << 20
+
+var shapeDebug = os.Getenv("C09_SHAPE_DEBUG") != ""
 
 const softBudget = 120 * time.Millisecond
 
